@@ -236,7 +236,7 @@ def _guard(r, key, fn):
     try:
         with warnings.catch_warnings():
             warnings.simplefilter("ignore")
-            return True, fn()
+            return True, r.twice(key, fn)
     except HarnessError:
         raise
     except Exception as e:  # every generated input is inside the documented domain
